@@ -162,9 +162,9 @@ def run(chk):
     if not loc_env:
         chk.assumptions.append('no non-C locale could be installed or built here (locale -a: C, C.utf8, POSIX): '
                                'locale independence was exercised under "C" only')
-    reps = 1 if quick else 12
+    reps = 1 if quick else 6
     for rep in range(reps):
-        lines = gen_lines(rng, 2500 if quick else 12000, 1200 if quick else 6000, 1500 if quick else 8000, bufs)
+        lines = gen_lines(rng, 2500 if quick else 6000, 1200 if quick else 3000, 1500 if quick else 4000, bufs)
         runs = [('C', None, lines)]
         if loc_env:
             sub = [l for l in lines if l.split('\t')[0] not in ('tbl',)]
